@@ -333,6 +333,8 @@ def build_handler(prog: dict, rec: Recorder):
                 rec.polls.setdefault(path, []).append((rec.inv, attempt, typed_repr(state)))
                 rec.log("PollCall", path=path, attempt=attempt, state=typed_repr(state)[:80])
                 rec.gate(f"fn:{path}")
+                if node.get("dur"):
+                    ds.vsleep(node["dur"])      # the check function takes (virtual) time
                 if fail_at and attempt == fail_at:
                     rec.fn_exit(path, False)
                     raise UserError(f"poll fail {path} a{attempt}")
@@ -407,19 +409,32 @@ def build_handler(prog: dict, rec: Recorder):
                 finally:
                     rec.fn_running.discard(bpath)
                     rec.log("BranchExit", path=bpath)
+            sd_kw = {}
+            if node.get("bad_serdes"):
+                # the BatchResult of the whole call cannot be serialized (items can): the map / parallel context itself FAILs,
+                # possibly while branches that lost an early completion are still running
+                from aws_durable_execution_sdk_python.serdes import ExtendedTypeSerDes, SerDes as _SerDes
+
+                class BrokenSerDes(_SerDes):
+                    def serialize(self, value, serdes_context):
+                        raise UserError(f"cannot serialize the result of {path}")
+
+                    def deserialize(self, data, serdes_context):
+                        raise UserError(f"cannot deserialize the result of {path}")
+                sd_kw = {"serdes": BrokenSerDes(), "item_serdes": ExtendedTypeSerDes()}
             if k == "map":
-                kw = {}
+                kw = dict(sd_kw)
                 if comp is not None:
                     kw["completion_config"] = comp
-                cfg = MapConfig(max_concurrency=node.get("maxc"), **kw) if (comp is not None or node.get("maxc") or node.get("explicit_cfg")) else None
+                cfg = MapConfig(max_concurrency=node.get("maxc"), **kw) if (comp is not None or node.get("maxc") or node.get("explicit_cfg") or sd_kw) else None
                 guarded(node, path, obs,
                         lambda: ctx.map(list(range(len(branches))), lambda bctx, item, i, items: branch_fn(bctx, i),
                                         name=name, config=cfg))
             else:
-                kw = {}
+                kw = dict(sd_kw)
                 if comp is not None:
                     kw["completion_config"] = comp
-                cfg = ParallelConfig(max_concurrency=node.get("maxc"), **kw) if (comp is not None or node.get("maxc") or node.get("explicit_cfg")) else None
+                cfg = ParallelConfig(max_concurrency=node.get("maxc"), **kw) if (comp is not None or node.get("maxc") or node.get("explicit_cfg") or sd_kw) else None
                 fns = [(lambda bctx, i=i: branch_fn(bctx, i)) for i in range(len(branches))]
                 guarded(node, path, obs, lambda: ctx.parallel(fns, name=name, config=cfg))
         else:
